@@ -107,6 +107,7 @@ mutant("m14n", "C14", "asmjit/x86/x86instapi.cpp", "            if (mode == Inst
 mutant("m16h", "C16", "asmjit/core/rapass.cpp", "  for (BaseNode* node = func; node && node != _stop; node = node->next()) {\n    node->reset_pass_data();\n  }\n", "", "revert fix: label nodes keep the register allocator's block after the function is done")
 mutant("m16i", "C16", "asmjit/core/builder.cpp", "  (*out)->reset_op_range(0, op_capacity);\n", "", "revert fix: new_inst_node() leaves the operands uninitialized")
 mutant("m18i", "C18", "asmjit/support/arena.cpp", "  size = Support::min<size_t>(size_t(result), ASMJIT_ARRAY_SIZE(buf) - 2);", "  size = size_t(result);", "revert fix: sformat() uses the untruncated length")
+mutant("m09n", "C09", J, "         !Support::bit_vector_get_bit(block->_stop_bit_vector, area_start - 1u)) {\n    area_start--;\n  }", "         !Support::bit_vector_get_bit(block->_stop_bit_vector, area_start - 1u)) {\n    break;\n  }", "revert fix: query() of an interior pointer returns a partial span")
 
 def run(cmd, env=None, timeout=3600):
     e = dict(os.environ); e.update(env or {})
